@@ -267,7 +267,7 @@ func classOf(e *actionlint.Error) int {
 			return clParser
 		case has("undefined variable"), has("undefined function"), has("property ") && strings.Contains(m, " is not defined in object type"):
 			return clUndef
-		case has("receiver of object dereference"), has("number of arguments is wrong"), strings.Contains(m, "argument of function call is not assignable"), has("index access operand must be type of"):
+		case has("receiver of object dereference"), has("number of arguments is wrong"), strings.Contains(m, "argument of function call is not assignable"), has("index access operand must be type of"), strings.Contains(m, "value cannot be compared to"):
 			return clType
 		case strings.Contains(m, "is potentially untrusted"):
 			return clUntrusted
@@ -674,10 +674,14 @@ func genInner(r *hx.Rng, kind string, style int, bare bool) (plantExpr, string) 
 			return mk("github.event[zzq]", "github.event[zzq]", 13), v
 		}
 	case "type":
-		vs := []string{"deref-string", "argcount", "argtype", "restarg2", "restarg3", "index-non-indexable", "index-non-indexable-2"}
+		vs := []string{"deref-string", "argcount", "argtype", "restarg2", "restarg3", "index-non-indexable", "index-non-indexable-2", "cmp-notnot", "cmp-not3"}
 		v := vs[r.Intn(len(vs))]
 		w := ws(r)
 		switch v {
+		case "cmp-notnot": // a comparison is reported at its left operand's first token: the FIRST of several '!'
+			return mk("!"+w+"!github.sha < github", "!"+w+"!github.sha < github", 0), v
+		case "cmp-not3":
+			return mk("! !"+w+"!github.sha >= github", "! !"+w+"!github.sha >= github", 0), v
 		case "index-non-indexable": // reported at the operand, wherever the index stands inside the brackets
 			return mk("github.event_name["+w+"0 ]", "github.event_name["+w+"0 ]", 0), v
 		case "index-non-indexable-2":
